@@ -19,7 +19,29 @@ def obl(id, module=None, theorems=(), models=(), oracle=None, tie=None, **kw):
 
 
 PROPS = {}
+# cNN.py and cNN_<part>.py files are merged into one property record
+import re as _re
 for _f in sorted(os.listdir(os.path.dirname(os.path.abspath(__file__)))):
-    if len(_f) == 6 and _f[0] == 'c' and _f.endswith('.py'):
-        _m = importlib.import_module('obligations.' + _f[:-3])
-        PROPS[_f[:-3].upper()] = _m.PROP
+    _mt = _re.match(r'^(c\d\d)(_\w+)?\.py$', _f)
+    if not _mt:
+        continue
+    _m = importlib.import_module('obligations.' + _f[:-3])
+    _id = _mt.group(1).upper()
+    _p = _m.PROP
+    if _id not in PROPS:
+        PROPS[_id] = dict(groups=[], obligations=[], corr_models=[], scope='', trusted_extra=[],
+                          corr_n=_p.get('corr_n', 60), oracle_budget=_p.get('oracle_budget', 0.5))
+    _d = PROPS[_id]
+    _d['obligations'] += _p.get('obligations', [])
+    for _k in ('groups', 'corr_models', 'trusted_extra'):
+        for _x in _p.get(_k, []):
+            if _x not in _d[_k]:
+                _d[_k].append(_x)
+    _d['scope'] = (_d['scope'] + ' ' + _p.get('scope', '')).strip()
+    _d['corr_n'] = min(_d['corr_n'], _p.get('corr_n', 60))
+    _d['oracle_budget'] = min(_d['oracle_budget'], _p.get('oracle_budget', 0.5))
+_ids = {}
+for _id, _d in PROPS.items():
+    for _o in _d['obligations']:
+        assert _o['id'] not in _ids, 'duplicate obligation id ' + _o['id']
+        _ids[_o['id']] = 1
